@@ -91,6 +91,19 @@ func (m *retryMetrics) EmitHistogram(name string, value interface{}, tags ...met
 	return err
 }
 
+// slowStartMetrics delays the emission the started-leading callback begins with.
+type slowStartMetrics struct {
+	metrics.Metrics
+	d time.Duration
+}
+
+func (m slowStartMetrics) EmitCounter(name string, value interface{}, tags ...metrics.T) error {
+	if name == "leader.election.success" {
+		time.Sleep(m.d)
+	}
+	return m.Metrics.EmitCounter(name, value, tags...)
+}
+
 // campaignBackend is the Backend handed to the real leader election: it records the revision the new
 // leader installs and whether the node already reported itself leader when it was installed.
 type campaignBackend struct {
@@ -708,7 +721,13 @@ func (s *backendSuite) do(t []string) string {
 		b2 := s.newBackend(ident)
 		cb := &campaignBackend{Backend: b2}
 		started := make(chan struct{})
-		le := leader.NewLeaderElection(cb, getMetrics(), func(context.Context) { close(started) }, func() {})
+		var mc metrics.Metrics = getMetrics()
+		if opts["f"] == "tso2" {
+			// the renew loop's first lock read (whose engine-timestamp read fails) gets ahead of the
+			// started-leading callback, which is held at its first statement (a metric emission)
+			mc = slowStartMetrics{Metrics: mc, d: 300 * time.Millisecond}
+		}
+		le := leader.NewLeaderElection(cb, mc, func(context.Context) { close(started) }, func() {})
 		cb.isLeader = le.IsLeader
 		if opts["fresh"] == "1" {
 			// the election record this node looks for does not exist (another key prefix before the restart, or
@@ -717,10 +736,11 @@ func (s *backendSuite) do(t []string) string {
 			db.Del([]byte(string(unhx(s.opts["prefix"])) + "/election"))
 			_ = db.Commit(ctx)
 		}
-		if opts["f"] == "tso" || opts["f"] == "tsoslow" {
+		if opts["f"] == "tso" || opts["f"] == "tsoslow" || opts["f"] == "tso2" {
 			s.c.mu.Lock()
 			s.c.tsoArmed = true
 			s.c.tsoSlow = opts["f"] == "tsoslow"
+			s.c.tsoSkip = opts["f"] == "tso2"
 			s.c.mu.Unlock()
 		}
 		go le.Campaign()
